@@ -19,6 +19,7 @@ type wgen struct {
 	getters []int
 	panics  []int
 	usable  []int // call ids that may be used (bounded step count)
+	floods  []int // small flood calls (many distinct strings): rarely, one task of a run makes them
 	maxStep int64
 	clock   bool // the library reads the clock: add clock-jump faults
 }
@@ -27,6 +28,13 @@ func newWgen(c *proto.Corpus, e *proto.Expected, maxStep int64) *wgen {
 	g := &wgen{c: c, e: e, byFam: map[int][]int{}, maxStep: maxStep}
 	for _, call := range c.Calls {
 		if e != nil && (call.ID >= len(e.Outcome) || e.Outcome[call.ID] == "" || (maxStep > 0 && e.Steps[call.ID] > maxStep)) {
+			continue
+		}
+		if call.Tag == "flood" {
+			// only the small ones, and only as the rare flooding task of a run
+			if e == nil || e.Steps[call.ID] <= floodSimSteps {
+				g.floods = append(g.floods, call.ID)
+			}
 			continue
 		}
 		g.usable = append(g.usable, call.ID)
@@ -44,6 +52,9 @@ func newWgen(c *proto.Corpus, e *proto.Expected, maxStep int64) *wgen {
 	}
 	return g
 }
+
+// flood calls up to this many yields may be used as the flooding task of a simulated run
+const floodSimSteps = 150000
 
 var policyNames = []string{"seq", "walk", "pct", "herd", "stall"}
 
@@ -106,6 +117,11 @@ func (g *wgen) run(seed uint64, proc, idx int) proto.RunRec {
 	if len(pool) > 8 {
 		pool = pool[:8]
 	}
+	flood := -1
+	if len(g.floods) > 0 && r.p(0.006) {
+		// a flooding task alongside: tables fill up, are reset or evicted while others are inside
+		flood = g.floods[r.n(len(g.floods))]
+	}
 	// operations
 	id := 0
 	var est int64
@@ -136,6 +152,9 @@ func (g *wgen) run(seed uint64, proc, idx int) proto.RunRec {
 			callID := pool[r.n(len(pool))]
 			if prev >= 0 && r.p(0.3) {
 				callID = prev // repeat(k): same call again
+			}
+			if flood >= 0 && t == nt-1 && nt <= 8 && k < 2 {
+				callID = flood
 			}
 			prev = callID
 			op := g.mkOp(id, callID)
